@@ -25,7 +25,7 @@ ASSUMPTIONS = [
     "the pending command whose sequence number a bad frame used may itself time out; the clauses protect other and later commands",
     "a flipped byte inside a correctly framed reply changes the decoded value undetectably (EZSP has no checksum) and is not flagged",
 ]
-PROBES = ["decodable_not_dispatched", "inject.truncated", "inject.empty", "inject.random", "inject.flip", "inject.fid_subst", "inject.seq_subst", "inject.unknown_id",
+PROBES = ["decodable_not_dispatched", "inject.truncated", "inject.empty", "inject.random", "inject.flip", "inject.fid_subst", "inject.seq_subst", "inject.unknown_id", "inject.repeated",
           "undecodable_ignored", "decodable_dispatched", "pending_seq_foreign_fid", "pending_seq_own_fid", "pending_call_timed_out_after_bad_frame",
           "after_command_ok", "mode.idle", "mode.pending"]
 
@@ -166,8 +166,8 @@ def run(scenario, params, tape, detail=False):
                 if got:
                     viol.append(("C08.cbvalid", "callback-for-bad-frame", f"v{V}: callback {got[0][1]}({got[0][2]}) invoked for {what} frame {data.hex()} which does not decode fully as a known frame (known as {name})"))
 
-        async def inject_pending(make, what):
-            """A getValue is pending (its reply withheld); the frame carries its sequence number."""
+        async def inject_pending(make, what, repeat=1):
+            """A getValue is pending (its reply withheld); the frame carries its sequence number (and may arrive more than once)."""
             hold["on"] = True
             hold["reqs"].clear()
             call = loop.create_task(ez.getValue(valueId=t.EzspValueId.VALUE_FREE_BUFFERS))
@@ -180,7 +180,11 @@ def run(scenario, params, tape, detail=False):
             req, genuine = hold["reqs"][0]
             data = make(req.seq)
             n0, nr = len(cbs), len(raised)
-            ncp.emit(data, 0.0, "bad")
+            for _ in range(repeat):
+                ncp.emit(data, 0.0, "bad")
+            if repeat > 1:
+                probe("inject.repeated")
+                what = f"{what}, delivered {repeat} times"
             await asyncio.sleep(0.2)
             name, ok, seq = decodes(V, data) if data else (None, False, None)
             # an invalidCommand response under the pending sequence is a legitimate (negative) reply to any command
@@ -257,6 +261,10 @@ def run(scenario, params, tape, detail=False):
                         injected.append(full[:L])
                         probe("inject.truncated")
                         await inject_pending(make, f"{name} truncated to {L}/{len(full)} bytes")
+                        if L == len(full) or L == len(full) - 1:
+                            # the same foreign frame once more under the pending sequence (a repeated callback, a duplicated foreign reply)
+                            injected.append(full[:L] + b"x2")
+                            await inject_pending(make, f"{name} truncated to {L}/{len(full)} bytes", repeat=2)
                         if name == "getValue" and L >= 1:
                             # the pending command's own frame id under another sequence number must not complete it either
                             def make2(seq, L=L, full=full):
@@ -306,7 +314,18 @@ def run(scenario, params, tape, detail=False):
                     gvf = sample_frame(ncp, V, "getValue", tape, 0) if tape.draw(2, "ownfid") else base
                     await inject_pending(lambda seq: bytes([(seq + off) % 256]) + gvf[1:], "seq_subst (foreign sequence)")
                 else:
-                    await inject_pending(lambda seq: mutate(seq), kind)
+                    rep = (1, 1, 2, 3)[tape.draw(4, "repeat")]
+                    if rep > 1 and kind in ("random", "flip"):
+                        fixed = {}
+
+                        def same(seq, fixed=fixed):  # the identical frame each time
+                            if "d" not in fixed:
+                                fixed["d"] = mutate(seq)
+                            return fixed["d"]
+
+                        await inject_pending(same, kind, repeat=rep)
+                    else:
+                        await inject_pending(lambda seq: mutate(seq), kind, repeat=rep)
             else:
                 probe("mode.idle")
                 data = mutate(None)
